@@ -30,6 +30,8 @@ ASSUMPTIONS = [
     "rows of singular fits (non-positive / non-finite position or flux errors, or a flux error larger than the flux; e.g. a "
     "1-D island of 3 pixels beside a blank block) are compared on sign and flags only, ignoring the FITERR bit, because the "
     "end point of the optimiser is arbitrary there",
+    "islands fitted with >= 3 components are compared on count, sign and flags only (several local minima; the optimiser's "
+    "end point depends on rounding)",
     "white noise is paired with docov=False and model-covariance noise with docov=True (as in C01)",
     "known finding K2 (islands with pixels of both signs are treated as positive islands) is excluded by construction",
     "the optimiser follows a mirrored but not bit-identical path for the negated image: parameters are compared to 0.3 reported "
@@ -43,6 +45,7 @@ case_strategy = st.fixed_dictionaries({
     "islandflux": st.booleans(),
     "docov": st.sampled_from([False, False, True]),
     "clip": st.sampled_from([(5.0, 4.0), (6.0, 3.0)]),
+    "cli": st.sampled_from([False, False, True]),
 })
 
 
@@ -98,6 +101,19 @@ def check_case(c):
         c = dict(c, docov=False)
     elif c["field"]["noise"] == "correlated":
         c = dict(c, docov=True)
+    if c["field"]["noise"] != "none" and tuple(c["clip"]) != (5.0, 4.0):
+        # a 3-sigma flood level on a noisy image joins the noise into ragged islands with dozens of summits: each takes
+        # the optimiser minutes.  Noisy fields therefore use the default clipping levels (runtime, not soundness).
+        c = dict(c, clip=(5.0, 4.0))
+    if c["field"]["noise"] != "none":
+        # runtime only: crowded noisy fields merge into islands with dozens of summits that take the optimiser minutes
+        fc = dict(c["field"])
+        fc["nsrc"] = min(fc["nsrc"], 10 if fc["layout"] == "random" else 24)
+        fc["blend_rate"] = min(fc["blend_rate"], 0.2)
+        if fc["noise"] == "white":
+            # pixel-scale noise on a broad faint source makes one summit per noise peak (41 components in one island)
+            fc["size_max"] = min(fc["size_max"], 1.5)
+        c = dict(c, field=fc)
     F = fields.build_field(c["field"])
     img, hdr, shape = F["img"], F["hdr"], F["shape"]
     # known finding K2: an island with pixels of both signs is always treated as a positive island, so its negative part
@@ -129,6 +145,21 @@ def check_case(c):
         P = run(pos, c, c["bkglevel"], fpos, nonegative=True)
         N = run(pos, c, c["bkglevel"], fpos, nopositive=True)
         none = run(pos, c, c["bkglevel"], fpos, nopositive=True, nonegative=True)
+        cli = {}
+        if c.get("cli"):
+            from vlib.cli import run_aegean
+            base = ["--seedclip", c["clip"][0], "--floodclip", c["clip"][1]]
+            if not c["docov"]:
+                base.append("--nocov")
+            if c["islandflux"]:
+                base.append("--island")
+            if fpos:
+                base += ["--noise", fpos[0], "--background", fpos[1]]
+            else:
+                base += ["--forcerms", 1.0, "--forcebkg", c["bkglevel"]]
+            cli["default"] = run_aegean(pos, d, "default", base)
+            cli["negative"] = run_aegean(pos, d, "negative", base + ["--negative"])
+            cli["nopositive"] = run_aegean(pos, d, "nopositive", base + ["--negative", "--nopositive"])
     finally:
         shutil.rmtree(d, ignore_errors=True)
     what = "%d truth sources, %s, aux=%s bkg=%g islandflux=%s docov=%s" % (len(F["truth"]), c["field"]["noise"], c["aux"],
@@ -149,7 +180,21 @@ def check_case(c):
             if not cand:
                 cand = [(float(refs.vsep(x.ra, x.dec, y.ra, y.dec)), k) for k, y in enumerate(pool)]
             B.append(pool.pop(min(cand)[1]))
+        ncomp_isl = {}
+        for x in A:
+            if isinstance(x, ComponentSource):
+                ncomp_isl[x.island] = ncomp_isl.get(x.island, 0) + 1
         for x, y in zip(A, B):
+            if isinstance(x, ComponentSource) and isinstance(y, ComponentSource) and ncomp_isl.get(x.island, 0) >= 3:
+                # an island fitted with >= 3 components in noise is an over-parameterised problem with several local
+                # minima; rounding-level differences between the two polarities select different ones (measured: 11 %
+                # in flux, components pinned at their bounds).  Only sign and flags are compared there.
+                res.label("multi-summit-island-row(sign/flags only)")
+                if not (np.sign(x.peak_flux) == -np.sign(y.peak_flux) and ((x.flags & ~2) == (y.flags & ~2))):
+                    res.bad("mirror-multi-summit-row", "%s: row at (%.5f, %.5f): peak %r/%r flags %d/%d" % (
+                        what, x.ra, x.dec, x.peak_flux, y.peak_flux, x.flags, y.flags), **tags)
+                    break
+                continue
             if type(x) is not type(y):
                 res.bad("mirror-rows", "%s: row types differ after sorting by position" % what, **tags)
                 break
@@ -234,6 +279,21 @@ def check_case(c):
             what, len(tp), len(tn), len(tb)), **tags)
     if any(isinstance(s, ComponentSource) for s in none):
         res.bad("both-filters-not-empty", "%s: nopositive and nonegative together still return components" % what, **tags)
+    # ---- the command line: no flag = positive only, --negative = both, --negative --nopositive = negative only
+    if cli:
+        for name, want in (("default", tp), ("negative", tb), ("nopositive", tn)):
+            rc, rows = cli[name]
+            got = sorted(rowtuple(s) for s in rows)
+            # tables carry numpy scalars: compare numerically
+            def norm(t):
+                return tuple(("nan" if isinstance(v, float) and math.isnan(v) else float(v)) if isinstance(v, (int, float, np.integer, np.floating))
+                             else str(v) for v in t)
+            if rc not in (0, None) or sorted(norm(t) for t in got) != sorted(norm(t) for t in want):
+                res.bad("cli-polarity", "%s: `aegean %s` returned rc=%r and %d components, the API gives %d for that polarity" % (
+                    what, {"default": "(no polarity flag)", "negative": "--negative", "nopositive": "--negative --nopositive"}[name],
+                    rc, len(got), len(want)), **tags)
+                break
+        res.label("cli")
     comps = [s for s in both if isinstance(s, ComponentSource)]
     npos = sum(1 for s in comps if s.peak_flux > 0)
     nneg = sum(1 for s in comps if s.peak_flux < 0)
